@@ -353,8 +353,8 @@ def correspondence(rep, rng, tier):
     P.shrink_failures(rep, 'pairing-long', impl_stub, P.oracle_per_event, lambda c: P.line('pairg', c)[:4000], expand=expand)
     P.shrink_failures(rep, 'pairing', impl_stub, P.oracle_per_event, lambda c: P.line('pairg', c))
     P.shrink_failures(rep, 'pairing-pregate', impl_pregate, oracle_pregate, lambda c: P.line('pair', c))
-    P.shrink_failures(rep, 'feed-generator-ir', tpir.impl_gen, tpir.oracle_gen, tpir.line_gen, seconds=10.0,
-                      expand=lambda c: dict(c, gen=tpir.variant(c)))
+    P.shrink_failures(rep, 'feed-generator-ir', tpir.impl_gen, tpir.oracle_gen, tpir.line_gen, seconds=15.0,
+                      expand=tpir.freeze)
     value_equal_section(rep, rng, tier)
     codes = P.real_alphabet()
     m = 1500 if tier == 'quick' else 20000
